@@ -19,7 +19,7 @@ RULE = ("case = (device, idle-phase style, masked_write pattern, list of 30-260 
         "DoubleRateLPDDR4PHY (sys+sys2x), LPDDR4SimPHY and DoubleRateLPDDR4SimPHY at the serial CS/CA pads, LPDDR5 DFIPhaseAdapter, LPDDR5PHY core (MASKED-WRITE / WRITE16); "
         "kinds ACT RD WR PRE REF MRW MRR MPC (+LPDDR5 NOP, +ZQC with an unassigned bank and cs_n-low NOP which must emit nothing); oracle = JEDEC decode of the CS/CA stream "
         "== DFI commands not overlapped, each at slot latency+phase with identical bank/row/column/AP/AB/MA/OP bits; non-trivial = the case contains a suppressed (overlapped) "
-        "command AND a command in the last phases of a cycle whose sequence spills into the next cycle AND >= 3 different operations emitted; distinct = distinct case digests; "
+        "command AND a command in the last phases of a cycle whose sequence spills into the next cycle AND >= 3 different operations emitted (bare LPDDR5 adapter, which has no overlap logic: commands in consecutive cycles instead of an overlap); distinct = distinct case digests; "
         "per shard every operand bit of every operation is required to have been emitted both as 0 and as 1 (classes 'toggled <family>.<op>.<field>', harness error otherwise); "
         "plus one exhaustive shard over all 128 LPDDR4 / 256 LPDDR5 MPC op codes")
 ASSUMPTIONS = [
@@ -43,9 +43,10 @@ ASSUMPTIONS = [
 
 KW = {"l4": ["ACT"] * 3 + ["RD"] * 3 + ["WR"] * 3 + ["PRE"] * 2 + ["REF"] * 2 + ["MRW"] * 2 + ["MRR"] * 2 + ["MPC"] * 2 + ["ZQX", "NOPCS"],
       "l5": ["ACT"] * 3 + ["RD"] * 3 + ["WR"] * 3 + ["PRE"] * 2 + ["REF"] * 2 + ["MRW"] * 2 + ["MRR"] * 2 + ["MPC"] * 2 + ["L5NOP", "ZQX", "NOPCS"]}
-GAPS = {"l4": [1, 1, 2, 2, 3, 3, 4, 4, 4, 4, 5, 5, 6, 7, 8, 8, 9, 11, 13, 16, 24, 40],
-        "l5phy": [1, 1, 2, 2, 2, 2, 3, 3, 4, 5, 8],
-        "l5adapter": [1, 1, 1, 2, 3]}
+# gap tables (in DFI phases), one is chosen per case: dense (mostly overlapping), mixed, sparse (mostly legal spacing)
+GAPS = {"l4": [[1, 1, 2, 2, 3, 3, 3, 4, 4, 5, 6, 8], [1, 1, 2, 2, 3, 3, 4, 4, 4, 4, 5, 5, 6, 7, 8, 8, 9, 11, 13, 16, 24, 40], [1, 2, 3, 4, 4, 5, 6, 7, 8, 9, 11, 13, 16, 24, 40]],
+        "l5phy": [[1, 1, 1, 2, 2, 3], [1, 1, 2, 2, 2, 2, 3, 3, 4, 5, 8], [1, 2, 2, 3, 4, 5, 8, 12]],
+        "l5adapter": [[1, 1, 1, 2], [1, 1, 1, 2, 3], [1, 2, 3, 5]]}
 FIELDS = {   # operand fields whose every bit must be seen 0 and 1: (family, op) -> [(field, lowest bit, number of bits)]
     "l4": {"ACT": [("bank", 0, 3), ("row", 0, 17)], "RD": [("bank", 0, 3), ("col", 2, 8), ("ap", 0, 1)], "WR": [("bank", 0, 3), ("col", 2, 8), ("ap", 0, 1)],
            "MWR": [("bank", 0, 3), ("col", 2, 8), ("ap", 0, 1)], "PRE": [("bank", 0, 3), ("ab", 0, 1)], "REF": [("bank", 0, 3), ("ab", 0, 1)],
@@ -76,13 +77,14 @@ def case_strategy(dev, tier):
     spec = cc.DEVICES[dev]
     fam = spec["fam"]
     gkey = "l4" if fam == "l4" else ("l5phy" if spec["kind"] == "phy" else "l5adapter")
-    gaps, kinds, sizes = GAPS[gkey], KW[fam], SIZES[gkey]
+    gap_tables, kinds, sizes = GAPS[gkey], KW[fam], SIZES[gkey]
     nmax = max(sizes)
     raw = st.tuples(st.integers(0, 255), st.integers(0, 255), st.integers(0, (1 << 25) - 1))
 
     def build(t):
         salt, idle, den, mw, junk, nsel, rows = t
         n = sizes[(nsel + _mix(salt, 0, 7)) % len(sizes)]
+        gaps = gap_tables[(nsel // 4 + _mix(salt, 0, 9)) % len(gap_tables)]
         cmds = []
         for i, (g, k, o) in enumerate(rows[:n]):
             cmds.append([gaps[(g + _mix(salt, i, 1)) % len(gaps)], kinds[(k + _mix(salt, i, 2)) % len(kinds)], o ^ (_mix(salt, i, 3) & ((1 << 25) - 1))])
@@ -93,7 +95,7 @@ def case_strategy(dev, tier):
     return st.tuples(st.integers(0, (1 << 32) - 1), st.integers(0, 2), st.integers(0, 1),
                      st.lists(st.integers(0, 3), min_size=1, max_size=5),
                      st.lists(st.integers(0, (1 << 25) - 1), min_size=1, max_size=4),
-                     st.integers(0, 3), st.lists(raw, min_size=nmax, max_size=nmax)).map(build)
+                     st.integers(0, 11), st.lists(raw, min_size=nmax, max_size=nmax)).map(build)
 
 
 # ------------------------------------------------------------------------------------------------ oracle
@@ -261,7 +263,10 @@ def account(case, exp, info, bitcov):
     if any(m is None for m in info["meaning"]):
         classes.append("non_command_dfi_codes")
     classes = sorted(set(classes))
-    nontrivial = bool(nsup) and spill and len(ops) >= 3
+    if kind == "adapter":     # no overlap handling in the bare adapter: back-to-back cycles instead
+        nontrivial = (1 in gaps) and spill and len(ops) >= 3
+    else:
+        nontrivial = bool(nsup) and spill and len(ops) >= 3
     return classes, nontrivial, nsup
 
 
@@ -336,7 +341,7 @@ PLAN = [  # (device, number of shards, case-count multiplier)
 
 
 def shards(tier, seed):
-    per = 60 if tier == "quick" else 3000
+    per = 150 if tier == "quick" else 3000
     out = []
     for dev, n, mult in PLAN:
         for k in range(n):
